@@ -191,7 +191,7 @@ pub fn run() -> i32 {
         }
         if fam == Fam::Seal {
             // real RNG, dryoc seals -> libsodium opens
-            let mut c = vec![0u8; len + 48];
+            let mut c = vec![0xC3u8; len + 48];
             dryoc::classic::crypto_box::crypto_box_seal(&mut c, &m, &ks.pk_b).unwrap();
             let ok1 = sodium::box_seal_open(&c, &ks.pk_b, &ks.sk_b).as_deref() == Some(&m[..]);
             // libsodium seals -> every dryoc unseal form opens
@@ -228,24 +228,24 @@ pub fn run() -> i32 {
             let (ppk, psk) = kp[p];
             match op {
                 0 => {
-                    let mut c = vec![0u8; msg.len() + 16];
+                    let mut c = vec![0xC3u8; msg.len() + 16];
                     crypto_box_easy(&mut c, &msg, &nonce, &ppk, &lsk).map_err(|e| format!("{:?}", e))?;
                     if Some(c) != sodium::box_easy(&msg, &nonce, &ppk, &lsk) { return Err("crypto_box_easy bytes differ from libsodium".into()); }
                 }
                 1 => {
                     let c = sodium::box_easy(&msg, &nonce, &lpk, &psk).unwrap();
-                    let mut m = vec![0u8; msg.len()];
+                    let mut m = vec![0xC3u8; msg.len()];
                     crypto_box_open_easy(&mut m, &c, &nonce, &ppk, &lsk).map_err(|_| "crypto_box_open_easy rejected a genuine libsodium box".to_string())?;
                     if m != msg { return Err("crypto_box_open_easy returned a wrong message".into()); }
                 }
                 2 => {
-                    let mut c = vec![0u8; msg.len() + 48];
+                    let mut c = vec![0xC3u8; msg.len() + 48];
                     crypto_box_seal(&mut c, &msg, &ppk).map_err(|e| format!("{:?}", e))?;
                     if sodium::box_seal_open(&c, &ppk, &psk).as_deref() != Some(&msg[..]) { return Err("libsodium cannot open a dryoc sealed box".into()); }
                 }
                 3 => {
                     let c = sodium::box_seal(&msg, &lpk);
-                    let mut m = vec![0u8; msg.len()];
+                    let mut m = vec![0xC3u8; msg.len()];
                     crypto_box_seal_open(&mut m, &c, &lpk, &lsk).map_err(|_| "crypto_box_seal_open rejected a genuine libsodium sealed box".to_string())?;
                     if m != msg { return Err("crypto_box_seal_open returned a wrong message".into()); }
                 }
